@@ -155,6 +155,14 @@ def run(ctx: Ctx):
                  f"`avp_def` attribute at all ({guards[0][:70]}): a request decoded with plain_msg=True is "
                  f"an instance of its command's base class, whose avp_def is the empty tuple - its "
                  f"Destination-Realm AVP is still ignored")
+    # ... and of a TYPED request whose Destination-Realm was given as an AVP (append_avp / the avps
+    # setter, the other documented way of building a message): its attribute is None too
+    ctx.inst(cons + "#typed-avp-list")
+    if src_avp and guards and all("avp_def" in t_ for t_ in guards):
+        ctx.fail(cons + "#typed-avp-list", f.loc(), f"the AVP list is consulted only for messages without "
+                 f"attribute definitions ({guards[0][:70]}): a typed request built with append_avp() carries "
+                 f"its Destination-Realm in the list only and is routed - and sent - by the node's own realm "
+                 f"(findings/audit3/C10-2)")
     # the connection of the selected peer is read after the selection (a user callback may run in
     # between): it may be gone, and that is a routing outcome (NotRoutable), not an AttributeError
     ctx.inst("route_request:selected-connection-checked")
@@ -175,6 +183,27 @@ def run(ctx: Ctx):
                          f"selection) without a check for None: a connection removed since the peers were "
                          f"looked at makes send_request fail with AttributeError instead of NotRoutable")
                 break
+        # ... and it may be ANOTHER connection: the peer lost the one that was found ready and has
+        # been dialled again meanwhile.  The state that made the peer eligible was the state of the
+        # connection looked at before the selection; the one read afterwards is checked itself
+        # before anything is sent over it
+        ctx.inst("route_request:selected-connection-checked#ready")
+        filing = [n for n in g.nodes if n.kind == "stmt" and isinstance(n.ast, ast.Assign) and any(
+            isinstance(t, ast.Subscript) and A.dotted(t.value) == "self._app_waiting_answer" for t in n.ast.targets)]
+        for fl in filing:
+            if not g.can_reach(cd, fl):
+                continue
+            fx = must_facts(g, at, fl)
+            if not any(f_[0] == f"{cv_}.state" and f_[1] == "in" and f_[3] is True
+                       and set(f_[2] if isinstance(f_[2], (set, frozenset, tuple, list)) else ()) <= set(READY)
+                       for f_ in fx):
+                ctx.fail("route_request:selected-connection-checked#ready", g.loc(cd),
+                         f"`{cd.text(50)}` is read after the selection and used without looking at its state: "
+                         f"a peer whose ready connection was lost and that was dialled again while the "
+                         f"selection callback ran has a new connection still waiting for its CEA - the "
+                         f"request is written to it (after the CER) while another peer is ready",
+                         expected=f"`{cv_}.state in PEER_READY_STATES` established before the request is filed",
+                         observed=f"guards: {sorted(map(str, fx))[:3]}")
     # the request's realm replaces the node's own whenever it is PRESENT (not: whenever it is
     # true - an empty Destination-Realm names no realm this node serves)
     for n in nondefault:
@@ -633,6 +662,11 @@ def run(ctx: Ctx):
     ctx.inst(cons)
     waits = [n for n in gs.nodes if any(A.call_name(c).endswith(".event.wait") for c in n.calls())]
     rets = [n for n in gs.nodes if n.kind == "stmt" and isinstance(n.ast, ast.Return) and n.ast.value is not None]
+    # (a `return None` for a message that is not a request concerns no sender waiting for an answer)
+    at_r = Atomizer(model, sr.module, sr.cls)
+    rets = [n for n in rets if not (isinstance(n.ast.value, ast.Constant) and n.ast.value.value is None and any(
+        str(f_[0]).endswith(".header.is_request") and f_[1] == "truthy" and f_[3] is False
+        for f_ in must_facts(gs, at_r, n)))]
     wvar = A.dotted(reg[0].ast.value) if reg else None
     if not waits or not rets or not all(A.dotted(r.ast.value) == f"{wvar}.answer" for r in rets):
         ctx.fail(cons, sr.loc(), "send_request does not return the answer stored in its own waiter")
